@@ -59,18 +59,19 @@ def L2S.ub : L2S → Bool
   | .cnt s => s.ub
   | .ut s => s.ub
 
-/-- events of instance 0 with the structure dump the harness printed after each (if any) -/
-def loop : L2S → Nat → List (Event × Option String) → Option String
-  | _, _, [] => none
-  | m, idx, (e, st) :: rest =>
+/-- events of instance 0 (with their index among all events of the script) and the structure dump the
+harness printed after each (if any) -/
+def loop : L2S → List (Event × Nat × Option String) → Option String
+  | _, [] => none
+  | m, (e, idx, st) :: rest =>
     let r := m.step e.now e.op
     if r.1.ub then some s!"ev={idx} the L2 model reaches undefined behaviour here"
     else if r.2 ≠ e.out then some s!"ev={idx} field=out model=[{showOut r.2}] impl=[{showOut e.out}]"
     else match st with
       | some d =>
-        if d == r.1.dump then loop r.1 (idx + 1) rest
+        if d == r.1.dump then loop r.1 rest
         else some s!"ev={idx} field=structure model=[{r.1.dump}] impl=[{d}]"
-      | none => loop r.1 (idx + 1) rest
+      | none => loop r.1 rest
 
 /-- `sts`: (index of the event among all events of the script, dump) -/
 def check (cfg : Cfg) (evs : List Event) (sts : List (Nat × String)) : Option (Option String × Nat) :=
@@ -78,7 +79,7 @@ def check (cfg : Cfg) (evs : List Event) (sts : List (Nat × String)) : Option (
   | none => none
   | some m =>
     let tagged := (evs.zipIdx).filterMap (fun (e, i) =>
-      if e.inst == 0 then some (e, (sts.find? (fun x => x.1 == i)).map (·.2)) else none)
-    some (loop m 0 tagged, (tagged.filter (fun x => x.2.isSome)).length)
+      if e.inst == 0 then some (e, i, (sts.find? (fun x => x.1 == i)).map (·.2)) else none)
+    some (loop m tagged, (tagged.filter (fun x => x.2.2.isSome)).length)
 
 end Verif.CheckL2
